@@ -225,6 +225,13 @@ def gen_case(rng, tier, idx):
             ctl = ["pure", rand_block(rng, n, 1, True, 0.35), rand_block(rng, n, 1, True, 0.35), "class"]
         else:
             ctl = ["tree", rand_tree(rng, n, 2 if tier == "quick" else 3), "class"]
+    if n_meas and rng.random() < 0.6:
+        # leave the final register in a superposition: several final bitstrings follow one outcome string
+        for q in rng.sample(range(n), rng.randint(1, min(2, n))):
+            g = {"name": rng.choice(["H", "RY"]), "target": [q], "control": None, "k": None, "var": False}
+            if g["name"] == "RY":
+                g["k"] = rng.choice([4, -4, 2, 6, 3])
+            prog.append(["u", g])
     prefix = [] if rng.random() < 0.25 else [s[1] for s in rand_units(rng, n, rng.randint(1, 4))]
     return {"n": n, "prefix": prefix, "prog": prog, "ctl": ctl, "style": style,
             "save": rng.random() < 0.5, "pass_isv": bool(prefix) or rng.random() < 0.3}
@@ -356,6 +363,27 @@ def dm_mixed_distribution(case, psi0):
     return np.real(np.diag(rho))
 
 
+def lead_marginal(allf, n):
+    """Marginal of all_frequencies over the leading (mid-circuit) characters: key[:len(key)-n]."""
+    out = {}
+    for k, v in allf.items():
+        out[k[:len(k) - n]] = out.get(k[:len(k) - n], 0.0) + v
+    return out
+
+
+def mid_not_marginal(mid, allf, n):
+    """None when mid_circuit_meas_freqs is the marginal of all_frequencies and sums to one; else what is wrong."""
+    marg = lead_marginal(allf, n)
+    if set(mid) != set(marg):
+        return "keys %r, marginal of all_frequencies has keys %r" % (sorted(mid), sorted(marg))
+    worst = max((abs(mid[k] - marg[k]) for k in marg), default=0.0)
+    if worst > 1e-8:
+        return "values %r differ from the marginal %r of all_frequencies by %.3g" % (mid, marg, worst)
+    if abs(sum(mid.values()) - 1) > 1e-8:
+        return "values %r sum to %.12g, not 1" % (mid, sum(mid.values()))
+    return None
+
+
 def key_of(x, n):
     return "".join(str((x >> j) & 1) for j in range(n))
 
@@ -444,7 +472,7 @@ def compare_case(ck, case, ci, leaves, psi0, model_sim, model_gen, model_sel, as
     for (b, kind, p_or) in leaves:
         tag = "desired"
         o = run_impl(case, b, psi0)
-        m = parse_model(model_sim[b])
+        m = parse_model(model_sim[b]) if model_sim is not None else None
         replay = {"kind": "case", "case": case, "b": b}
         # ---- oracle (the property itself, independent numpy semantics) ----
         try:
@@ -459,9 +487,10 @@ def compare_case(ck, case, ci, leaves, psi0, model_sim, model_gen, model_sel, as
         nontriv = (kind == "ok" and 1e-9 < p_or < 1 - 1e-9)
         ck.case("programs", json.dumps([ci, b]), nontrivial=nontriv,
                 sample={"case": case, "b": b, "impl": {k: (str(v)[:200]) for k, v in o.items() if k in ("exc", "probs", "f", "mid")},
-                        "model": model_sim[b][:300]},
+                        "model": model_sim[b][:300] if model_sim is not None else "model evaluation failed"},
                 tags=[case["style"], "n_meas=%d" % (n_m + n_top(case, "c")), "outcome-" + kind,
-                      "save=%s" % case["save"], "isv" if case["pass_isv"] else "no-isv"] + (["risky-nesting"] if risky else []))
+                      "save=%s" % case["save"], "isv" if case["pass_isv"] else "no-isv"] + (["risky-nesting"] if risky else [])
+                + (["final-superposed"] if o_exc is None and int(np.sum(np.abs(o_v) ** 2 > 1e-12)) >= 2 else []))
         cls = "nested-measurement-tail" if risky else "plain"
         if o_exc is None:
             P_or = float(np.vdot(o_v, o_v).real)
@@ -498,20 +527,29 @@ def compare_case(ck, case, ci, leaves, psi0, model_sim, model_gen, model_sel, as
                     if set(o["allf"]) != set(exp_all) or any(abs(o["allf"][k] - exp_all[k]) > 1e-8 for k in exp_all):
                         ck.violation("C10/cirq/%s/all_frequencies" % ("cmeasure-loop" if has_c else "piecewise"),
                                      "all_frequencies %r is not outcome string %r + final distribution %r" % (o["allf"], key, o["f"]), replay)
-                    mid_ok = set(o["mid"]) == {key} and abs(o["mid"][key] - 1) < 1e-8
-                    if not mid_ok:
-                        if has_c and set(o["mid"]) == {""}:
-                            ck.violation(SIG_MIDFREQ, "simulate(desired_meas_result=%r) on a circuit with CMEASURE and n_shots=None leaves "
-                                         "mid_circuit_meas_freqs = %r instead of {%r: 1.0}" % (b, o["mid"], key), replay)
-                        else:
-                            ck.violation("C10/cirq/%s/mid_circuit_meas_freqs" % ("cmeasure-loop" if has_c else "piecewise"),
-                                         "mid_circuit_meas_freqs %r, expected {%r: 1.0}" % (o["mid"], key), replay)
+                    path = "cmeasure-loop" if has_c else "piecewise"
+                    mid = o["mid"]
+                    if has_c and key != "" and set(mid) == {""} and abs(mid[""] - 1) < 1e-8:
+                        # known: the exact CMEASURE path hands the final-register frequencies to the splitter
+                        ck.violation(SIG_MIDFREQ, "simulate(desired_meas_result=%r) on a circuit with CMEASURE and n_shots=None leaves "
+                                     "mid_circuit_meas_freqs = %r instead of {%r: 1.0}" % (b, mid, key), replay)
+                    else:
+                        why = mid_not_marginal(mid, o["allf"], n)
+                        if why:
+                            ck.violation("C10/cirq/%s/mid_circuit_meas_freqs-not-marginal-of-all_frequencies" % path,
+                                         "outcome %r: mid_circuit_meas_freqs %s; all_frequencies %r; program %s"
+                                         % (b, why, o["allf"], json.dumps(case["prog"])[:500]), replay)
+                        elif not (set(mid) == {key} and abs(mid[key] - 1) < 1e-8):
+                            ck.violation("C10/cirq/%s/mid_circuit_meas_freqs" % path,
+                                         "mid_circuit_meas_freqs %r, expected the conditional branch probability {%r: 1.0}" % (mid, key), replay)
         elif o_exc in ("ValueError",) and o["exc"] is None:
             sig = SIG_PRECIRC_SIM if risky else "C10/cirq/%s/impossible-outcome-accepted" % ("cmeasure-loop" if has_c else "piecewise")
             ck.violation(sig, "outcome %r has probability zero but simulate returned probabilities %r; program %s"
                          % (b, o.get("probs"), json.dumps(case["prog"])[:600]), replay)
         # ---- correspondence with the Coq model (faithful to the source as it is now) ----
-        if m["exc"] is not None or o["exc"] is not None:
+        if m is None:
+            pass
+        elif m["exc"] is not None or o["exc"] is not None:
             if (m["exc"] or "ok") != (o["exc"] or "ok"):
                 ck.violation("C10/correspondence/simulate/exception", "outcome %r: implementation %s, model %s"
                              % (b, o["exc"], m["exc"]), replay, found_input=False)
@@ -535,20 +573,20 @@ def compare_case(ck, case, ci, leaves, psi0, model_sim, model_gen, model_sel, as
         # ---- generate_applied_gates: second copy of the loop ----
         if has_c and b != "":
             g_impl = run_impl_gen(case, b)
-            g_model = model_gen[b]
-            g_model_items = g_model.split(" | ")[0].strip() if not g_model.startswith("Err:") else g_model
-            if g_impl != g_model_items:
+            g_model = model_gen[b] if model_gen is not None else None
+            g_model_items = None if g_model is None else (g_model.split(" | ")[0].strip() if not g_model.startswith("Err:") else g_model)
+            if g_model is not None and g_impl != g_model_items:
                 ck.violation("C10/correspondence/generate_applied_gates", "outcome %r: implementation %s, model %s"
                              % (b, g_impl, g_model_items), replay, found_input=False)
             ck.case("generate_applied_gates", json.dumps([ci, b]), nontrivial=not g_impl.startswith("Err"),
                     sample={"case": case, "b": b, "impl": g_impl[:300]}, tags=[case["style"]] + (["risky-nesting"] if risky else []))
-            sel = model_sel[b]
-            sel_items = sel.split(" | ")[0].strip() if not sel.startswith("Err:") else sel
+            sel = model_sel[b] if model_sel is not None else None
+            sel_items = None if sel is None else (sel.split(" | ")[0].strip() if not sel.startswith("Err:") else sel)
             if o_exc is None and not g_impl.startswith("Err") and g_impl != show_items_oracle(o_items):
                 ck.violation(SIG_PRECIRC_GEN if risky else "C10/generate_applied_gates/not-the-selected-gates",
                              "outcome %r: generate_applied_gates %s, selected gates %s" % (b, g_impl, show_items_oracle(o_items)), replay)
             # oracle vs the model's specification (keeps the two independent statements of "selected" honest)
-            if o_exc is None and sel_items != show_items_oracle(o_items):
+            if o_exc is None and sel is not None and sel_items != show_items_oracle(o_items):
                 ck.violation("C10/correspondence/selected-vs-oracle", "outcome %r: Coq `selected` %s, numpy oracle %s"
                              % (b, sel_items, show_items_oracle(o_items)), replay, found_input=False)
             # both copies of the loop on the implementation
@@ -634,9 +672,16 @@ def sampled_bad(case, mode, n_shots, f, sim, circ, branch):
             ms, x = k[:len(k) - n], k[len(k) - n:]
             if ms not in branch or branch[ms][int(x, 2)] < 1e-12:
                 bad.append("sampled outcome %s + %s has probability zero or is no outcome string" % (ms, x))
-        for ms in sim.mid_circuit_meas_freqs:
+        mid = sim.mid_circuit_meas_freqs
+        for ms in mid:
             if ms not in branch:
                 bad.append("mid_circuit_meas_freqs key %r is not a possible outcome string" % ms)
+        why = mid_not_marginal(mid, allf, n)
+        if why:
+            bad.insert(0, "NOT-MARGINAL mid_circuit_meas_freqs %s; all_frequencies %r" % (why, allf))
+        if any(abs(v * n_shots - round(v * n_shots)) > 1e-6 for v in mid.values()) or \
+                abs(sum(v * n_shots for v in mid.values()) - n_shots) > 1e-6:
+            bad.append("mid_circuit_meas_freqs %r are not counts/n_shots adding up to n_shots=%d" % (mid, n_shots))
         if has_c:
             for ms, p in circ.success_probabilities.items():
                 if ms not in branch or abs(branch[ms].sum() - p) > 1e-8:
@@ -673,7 +718,9 @@ def sampled_one(case, mode, n_shots, psi0, leaves, seed):
     if not bad:
         return None, "", f
     sig = SIG_PRECIRC_SIM if risky_any else "C10/cirq/sampled/%s/invariant" % mode
-    if mode == "save" and np.max(np.abs(psi0 - np.eye(1 << n)[0])) > 1e-9:
+    if bad[0].startswith("NOT-MARGINAL"):
+        sig = "C10/cirq/sampled/%s/mid_circuit_meas_freqs-not-marginal-of-all_frequencies" % mode
+    elif mode == "save" and np.max(np.abs(psi0 - np.eye(1 << n)[0])) > 1e-9:
         # would the run be consistent with the all-zero initial state, i.e. was initial_statevector ignored?
         z = np.zeros(1 << n, dtype=complex)
         z[0] = 1
@@ -738,9 +785,14 @@ def run(ck):
                                     "cirq's simulation of unitary pieces, DensityMatrixSimulator, dephase_measurements (external)",
                                     "floating-point rounding (tolerances 1e-9 / 1e-8)", "split_frequency_dict helpers (property C18)",
                                     "equivalence of tabulated execution (State.tab/run_gate, Measure.proj_tab) with the function semantics"]
-    res = ck.prove()
-    if not res.ok:
-        ck.proof_violation(res)
+    # a broken proof / model never stops the run: the implementation-only oracles below still search for a failing input
+    try:
+        res = ck.prove()
+        if not res.ok:
+            ck.proof_violation(res)
+    except Exception as e:  # noqa  (theories no longer build)
+        ck.violation("C10/proof/build", "coq/props/C10.v or the theories it imports could not be built: %s" % str(e)[-1500:],
+                     {"kind": "proof", "error": str(e)[-3000:]}, found_input=False)
     try:
         import tangelo.linq  # noqa
     except Exception as e:  # noqa
@@ -785,16 +837,21 @@ def run(ck):
             exprs_gen.append("run_gen %s %s %s %s %s" % (coq_bool(asis), coq_nat(fuel), coq_ctl(case["ctl"]), coq_instrs(case["prog"]), d))
             exprs_sel.append("run_selected %s %s %s %s" % (coq_nat(fuel), coq_ctl(case["ctl"]), coq_instrs(case["prog"]), d))
         work.append((ci, case, psi0, leaves, trunc, allb))
-    out_sim = ck.coq_eval("sim", PREAMBLE, exprs_sim, shard=max(40, len(exprs_sim) // 4 + 1), jobs=4)
-    out_gen = ck.coq_eval("gen", PREAMBLE, exprs_gen + exprs_sel, shard=max(200, len(exprs_gen) // 2 + 1), jobs=4)
-    out_sel = out_gen[len(exprs_gen):]
-    out_gen = out_gen[:len(exprs_gen)]
+    try:
+        out_sim = ck.coq_eval("sim", PREAMBLE, exprs_sim, shard=max(40, len(exprs_sim) // 4 + 1), jobs=4)
+        out_gen = ck.coq_eval("gen", PREAMBLE, exprs_gen + exprs_sel, shard=max(200, len(exprs_gen) // 2 + 1), jobs=4)
+        out_sel = out_gen[len(exprs_gen):]
+        out_gen = out_gen[:len(exprs_gen)]
+    except Exception as e:  # noqa  (model no longer evaluates): keep going with the oracles on the implementation
+        ck.violation("C10/correspondence/model-evaluation", "the Coq model could not be evaluated: %s" % str(e)[-1500:],
+                     {"kind": "model", "error": str(e)[-3000:]}, found_input=False)
+        out_sim = out_gen = out_sel = None
     pos = 0
     for (ci, case, psi0, leaves, trunc, allb) in work:
         k = len(allb)
-        ms = {b: out_sim[pos + j] for j, (b, _, _) in enumerate(allb)}
-        mg = {b: out_gen[pos + j] for j, (b, _, _) in enumerate(allb)}
-        msel = {b: out_sel[pos + j] for j, (b, _, _) in enumerate(allb)}
+        ms = None if out_sim is None else {b: out_sim[pos + j] for j, (b, _, _) in enumerate(allb)}
+        mg = None if out_gen is None else {b: out_gen[pos + j] for j, (b, _, _) in enumerate(allb)}
+        msel = None if out_sel is None else {b: out_sel[pos + j] for j, (b, _, _) in enumerate(allb)}
         pos += k
         compare_case(ck, case, ci, allb, psi0, ms, mg, msel, asis)
         if trunc is not None:
@@ -825,7 +882,13 @@ def replay(data):
             if n_top(case, "c"):
                 bad = bad or LC.show_gates_impl(o["applied"])[0] != show_items_oracle(items)
                 bad = bad or run_impl_gen(case, b) != show_items_oracle(items)
-                bad = bad or set(o["mid"]) != {used}
+            known_mid = bool(n_top(case, "c")) and used != "" and set(o["mid"]) == {""} and abs(o["mid"][""] - 1) < 1e-8
+            if data.get("signature") == SIG_MIDFREQ:
+                return 1 if known_mid else 0
+            if (n_top(case, "c") or n_top(case, "m")) and not known_mid:
+                why = mid_not_marginal(o["mid"], o["allf"], case["n"])
+                print("mid_circuit_meas_freqs:", o["mid"], why or "is the marginal of all_frequencies")
+                bad = bad or bool(why) or set(o["mid"]) != {used}
             return 1 if bad else 0
         except OracleError as e:
             print("oracle:", e.kind)
